@@ -51,18 +51,19 @@ def run_randomly(ns, nd, evenly, maxc, chooser):
         kw = dict(evenly=evenly)
         if maxc != INF:
             kw["max_connects"] = maxc
+        handed = list(dst)          # the caller's own list object
         try:
-            ret = mutil.connect_randomly(w, src, list(dst), "a", ("b", "c"), **kw)
+            ret = mutil.connect_randomly(w, src, handed, "a", ("b", "c"), **kw)
             exc = None
         except Exception as e:  # noqa: BLE001
             ret, exc = None, e
     finally:
         mutil.random = old
-    return src, dst, w.calls, ret, exc
+    return src, dst, w.calls, ret, exc, handed
 
 
 def judge_randomly(ns, nd, evenly, maxc, choices, res):
-    src, dst, calls, ret, exc = res
+    src, dst, calls, ret, exc, handed = res
     case = dict(fn="connect_randomly", ns=ns, nd=nd, evenly=evenly,
                 max_connects=None if maxc == INF else maxc, choices=choices)
     out = []
@@ -89,10 +90,30 @@ def judge_randomly(ns, nd, evenly, maxc, choices, res):
             add("not-even", f"connections per destination {cnt}")
     if not evenly and max(cnt.values()) > maxc:
         add("above-max-connects", f"connections per destination {cnt}")
+    if sorted(handed) != sorted(dst):
+        # judged against the destination set as the caller sees it after the call, sources are
+        # connected to entities outside it / the returned set is not a subset of it
+        add("destination-set-of-the-caller-changed",
+            f"the list handed in as dest_set now contains {sorted(handed)} instead of {sorted(dst)}")
     used = {d for d, n in cnt.items() if n}
     if ret is None or set(ret) != used:
         add("wrong-return", f"returned {sorted(ret) if ret is not None else None}, used {sorted(used)}")
     return out
+
+
+def run_many_to_one_noattrs(ns):
+    """a call without any attribute pair (only async_requests) is valid and must reach connect()"""
+    src = [f"s{i}" for i in range(ns)]
+    w = RecWorld()
+    case = dict(fn="connect_many_to_one", ns=ns, async_requests=True, shape="noattrs")
+    try:
+        mutil.connect_many_to_one(w, list(src), "D", async_requests=True)
+    except Exception as e:  # noqa: BLE001
+        return [dict(prop="C18", kind="many-to-one-raises", cls=None, msg=f"raised {e!r}: {case}", case=case)]
+    ok = [c[0] for c in w.calls] == src and all(
+        c[1] == "D" and c[2] == () and c[3].get("async_requests") is True for c in w.calls)
+    return [] if ok else [dict(prop="C18", kind="many-to-one-wrong", cls=None,
+                               msg=f"calls {w.calls}: {case}", case=case)]
 
 
 def run_many_to_one(ns, async_requests, shape="list"):
@@ -122,7 +143,9 @@ def run_many_to_one(ns, async_requests, shape="list"):
 
 def replay(doc):
     c = doc["case"]
-    if c["fn"] == "connect_many_to_one":
+    if c["fn"] == "connect_many_to_one" and c.get("shape") == "noattrs":
+        v = run_many_to_one_noattrs(c["ns"])
+    elif c["fn"] == "connect_many_to_one":
         v = run_many_to_one(c["ns"], c["async_requests"], c.get("shape", "list"))
     else:
         from .choices import Chooser
@@ -173,6 +196,12 @@ def check(prop, tier):
             for v in run_many_to_one(ns, ar, shape):
                 kinds[v["kind"]] = kinds.get(v["kind"], 0) + 1
                 rep.report(v, dict(kind="call", module="mc.enum_c18", case=v["case"]))
+    for ns in range(0, 5):
+        cases += 1
+        execs += 1
+        for v in run_many_to_one_noattrs(ns):
+            kinds[v["kind"]] = kinds.get(v["kind"], 0) + 1
+            rep.report(v, dict(kind="call", module="mc.enum_c18", case=v["case"]))
     rc = rep.finish()
     cov = dict(
         states=execs, transitions=execs, traces_validated_against_impl=execs,
